@@ -68,7 +68,8 @@ func main() {
 		}
 		parts := p.parts()
 		if f := innerParts[id]; f != nil {
-			parts = f()
+			// inner parts first (they carry the replay functions of the explorations), then the parent-side parts
+			parts = append(f(), parts...)
 		}
 		os.Exit(mc.RunReplay(id, parts, os.Args[3]))
 	}
